@@ -20,10 +20,14 @@ var verifC17Preds = []string{
 	"avg(v) >= 1.5",
 	"count(*) = 2",
 	"count(v) >= 2",
+	"count(v) = 0 OR count(v) >= 2",
 }
 
 // verifC17Eval is the reference evaluation of predicate p on the running aggregates of a group.
-// ok=false: an operand is NULL (the implementation leaves the fast path there; outside the claim).
+// ok=false: an operand is NULL. The general engine then rejects: an ordered comparison with NULL is a
+// run-time error, which makes the whole predicate false (none of these predicates uses != on a
+// nullable aggregate). The unchanged code evaluates such rows on the expr-lang VM (path cut); if a
+// shortcut answers instead, it must answer false.
 func verifC17Eval(p int, cnt, cntV int64, sum, mx, mn float64) (fire bool, ok bool) {
 	hasV := cntV > 0
 	switch p {
@@ -43,6 +47,8 @@ func verifC17Eval(p int, cnt, cntV int64, sum, mx, mn float64) (fire bool, ok bo
 		return cnt == 2, true
 	case 7:
 		return cntV >= 2, true
+	case 8:
+		return cntV == 0 || cntV >= 2, true
 	}
 	panic("pred")
 }
@@ -115,8 +121,8 @@ func VerifC17Global() {
 		gw.processRow(types.Row{Data: row})
 		want, ok := verifC17Eval(p, a.cnt, a.cntV, a.sum, a.mx, a.mn)
 		if !ok {
-			// NULL aggregate operand: the predicate is evaluated by the general engine
-			return
+			zzverif.Cover("null-aggregate-operand")
+			want = false
 		}
 		got := len(fired) - before
 		zzverif.Observe("fired", int64(got))
